@@ -212,6 +212,7 @@ pub fn make_handler<T: ToMV>(
         let Some(w) = weak.upgrade() else { return };
         let _g = enter(&w, Ctx::Handler(sid));
         let n = w.bump_call(cb);
+        w.handler_phase.set(true);
         w.crash_point();
         let upd = match u {
             Update::Initialised(v) => Upd::Init(v.mv()),
@@ -248,6 +249,7 @@ pub fn make_node_handler<T: ToMV>(
         let _tok = &tok;
         let Some(w) = weak.upgrade() else { return };
         let _g = enter(&w, Ctx::NodeHandler(nh));
+        w.handler_phase.set(true);
         w.crash_point();
         let upd = match u {
             incremental::NodeUpdate::Necessary(v) => Upd::Init(v.mv()),
